@@ -97,3 +97,11 @@ Definition run_nesting (inp : list Z) : list Z :=
   | [where_; n; _] => [b2z (nesting_levels where_ n <=? max_nesting)]
   | _ => [-779]
   end.
+
+(* kinds 1106 / 1604: the same bound for an extension handshake from a peer and for an HTTP tracker response:
+   in = [n terminated]; the nested value sits directly in the outermost dictionary *)
+Definition run_net_nesting (inp : list Z) : list Z :=
+  match inp with
+  | [n; term] => [b2z (z2b term && (nesting_levels 0 n <=? max_nesting))]
+  | _ => [-779]
+  end.
